@@ -51,6 +51,9 @@ type Spec struct {
 	// NestedReg: every type is added to every type (as FullReg), but the ROOT receives only the
 	// types its own text names; the types those need reach the root through them.
 	NestedReg bool `json:"types_reach_the_root_through_types,omitempty"`
+	// ChainReg: every schema (the root and each type) receives exactly the types its own text
+	// names; a type several references away reaches the root through that many steps.
+	ChainReg bool `json:"each_schema_receives_the_types_it_names,omitempty"`
 }
 
 // Obs is what one call returned.
@@ -228,13 +231,16 @@ func Build(sp Spec) (s *njs.Schema, o Obs) {
 		}
 		built[i] = ts
 	}
-	if sp.FullReg || sp.NestedReg {
+	if sp.FullReg || sp.NestedReg || sp.ChainReg {
 		for i, t := range sp.Types {
 			if t.Regex {
 				continue
 			}
 			for j, u := range sp.Types {
-				if i == j {
+				if i == j && !sp.ChainReg {
+					continue
+				}
+				if sp.ChainReg && !strings.Contains(t.Text, u.Name) {
 					continue
 				}
 				if err := built[i].AddType(u.Name, built[j]); err != nil {
@@ -256,7 +262,7 @@ func Build(sp Spec) (s *njs.Schema, o Obs) {
 		Safe(pre.Check)
 	}
 	for i, t := range sp.Types {
-		if sp.NestedReg && !strings.Contains(sp.Text, t.Name) {
+		if (sp.NestedReg || sp.ChainReg) && !strings.Contains(sp.Text, t.Name) {
 			continue
 		}
 		if err := s.AddType(t.Name, built[i]); err != nil {
